@@ -325,7 +325,9 @@ func c02CheckProgram(c *Ctx, p *c02Prog, or *Oracle, srv *FcSrv, hazard bool) *c
 				c.Count("raw_text_differs_only_in_layout_or_more")
 			}
 			if got[f.Name] != want {
-				c.Disagree()
+				if !hazard {
+					c.Disagree()
+				}
 				bad = true
 				viol("sig", fmt.Sprintf("emitted signature is not the principal type: fc `%s`, principal `%s`", got[f.Name], want),
 					map[string]any{"variant_mask": mask, "function": f.Name, "source": src, "emitted": got[f.Name], "expected": want})
@@ -625,9 +627,9 @@ func runC02(c *Ctx) {
 		"at several instantiations) with the principal type known by construction; every subset of <= 6 annotations erased; " +
 		"non-trivial = at least one unannotated parameter or a generic result; distinct by source text of the fully annotated program"
 	c02CheckFoi(c)
-	nRand := c.Pick(130, 9000)
-	nShape := c.Pick(90, 5000)
-	nHazard := c.Pick(16, 400)
+	nRand := c.Pick(110, 9000)
+	nShape := c.Pick(70, 5000)
+	nHazard := c.Pick(12, 400)
 	c02MaxSites = c.Pick(4, 6) // quick: <= 2^4 variants per program, thorough: <= 2^6
 	var progs []*c02Prog
 	if c.Replay != "" {
@@ -698,7 +700,7 @@ func runC02(c *Ctx) {
 		}
 	}
 	// programs are checked in chunks; the build batch of a chunk runs while the next chunk is checked
-	bsize := c.Pick(120, 400)
+	bsize := c.Pick(96, 400)
 	var bwg sync.WaitGroup
 	nb := 0
 	for start := 0; start < len(progs); start += bsize {
